@@ -77,6 +77,21 @@ pub fn load_via_event(ws: &[u32], via: &str, tail: &[u8]) -> Value {
     let r = catch(|| match via {
         "bytes" => { let mut b = crate::parser::words_to_bytes(ws); b.extend_from_slice(tail); dr::load_bytes(&b) }
         "default" => { let mut l = dr::Loader::default(); rspirv::binary::parse_words(ws, &mut l).map(|_| l.module()) }
+        // "reuse": a Loader that already consumed a binary ending in a structural error is handed the binary; whatever it
+        // makes of it (leftovers of the first input included) is not judged - only that nothing panics
+        "reuse" => {
+            let f = [(5u32 << 16) | 54, 1, 2, 0, 3]; let l_ = [(2u32 << 16) | 248, 4]; let e = [(1u32 << 16) | 56]; let r = [(1u32 << 16) | 253];
+            let firsts: Vec<Vec<u32>> = vec![[&f[..], &l_[..], &e[..]].concat(), [&f[..], &l_[..]].concat(), [&f[..], &e[..], &e[..]].concat(), [&l_[..]].concat(), [&f[..], &l_[..], &r[..], &r[..]].concat(), [&f[..], &f[..]].concat()];
+            for first in firsts {
+                let mut l = dr::Loader::new();
+                let mut b1: Vec<u32> = HEADER.to_vec(); b1.extend(first);
+                let _ = rspirv::binary::parse_words(&b1, &mut l);
+                let _ = rspirv::binary::parse_words(ws, &mut l);
+                let mut tail: Vec<u32> = HEADER.to_vec(); tail.extend(r); tail.extend(e);
+                let _ = rspirv::binary::parse_words(&tail, &mut l);
+            }
+            Err(rspirv::binary::ParseState::ConsumerStopRequested)
+        }
         _ => dr::load_words(ws),
     });
     match r {
@@ -353,6 +368,10 @@ fn suite_raw(g: &Gram, out: &mut Out, rng: &mut Rng, n: usize) {
                           "words": load_via_event(&ws, "bytes", t)}));
             out.ev(json!({"ev": "rawload", "tag": "raw-default", "layout": layout && tag != "raw-padnoise", "in_words": jws(&ws), "in_version": jw(ws[1]), "in_bound": jw(ws[3]),
                           "words": load_via_event(&ws, "default", &[])}));
+            if k % 8 == 0 {
+                out.ev(json!({"ev": "rawload", "tag": "raw-reuse", "layout": false, "in_words": jws(&ws), "in_version": jw(ws[1]), "in_bound": jw(ws[3]),
+                              "words": load_via_event(&ws, "reuse", &[])}));
+            }
         }
     }
 }
